@@ -211,6 +211,7 @@ class StackNode:
         self.reentrant_depth = 0
         self.send_time = 0           # seconds (or (lo, hi)) the send backend blocks its caller after the frame is out
         self.slow_sends = 0
+        self.slow_log = []          # (t0, t1) of every blocking send: time the stack could not use for anything else in that thread
         self.isolated = False
         self.isolated_sent = []
         self.send_calls = 0
@@ -290,6 +291,7 @@ class StackNode:
             if st is not None and sim.current is st and not sim.reentrant_depth:
                 d = self.send_time if not isinstance(self.send_time, tuple) else self.bus.rng.uniform(*self.send_time)
                 self.slow_sends += 1
+                self.slow_log.append((sim.now, sim.now + d))
                 engine._vsleep(d)
 
     def can_reenter(self):
